@@ -93,7 +93,7 @@ Theorem op_ok_spec : forall l, op_ok l = true ->
   loads_covered ([], allocs l) (last_attempt l) = true /\ coupled (last_attempt l) = true /\ held_at_end l = [] /\
   versions_own [] l = true.
 Proof.
-  intros l H. unfold op_ok in H. apply andb_true_iff in H as [H H4]. apply andb_true_iff in H as [H H3].
+  intros l H. unfold op_ok in H. apply andb_true_iff in H as [H _]. apply andb_true_iff in H as [H H4]. apply andb_true_iff in H as [H H3].
   apply andb_true_iff in H as [H1 H2].
   split; [exact H1|]. split; [exact H2|]. split; [destruct (held_at_end l); [reflexivity|discriminate]|exact H4].
 Qed.
@@ -139,10 +139,32 @@ Qed.
 Theorem scan_loads_validated : forall l, scan_ok l = true -> forallb (fun x => negb (is_failure x)) l = true ->
   forall a n b, l = a ++ PLoad n :: b -> existsb (validates n) b = true.
 Proof.
-  intros l H NF a n b E. unfold scan_ok in H. apply andb_true_iff in H as [_ H].
+  intros l H NF a n b E. unfold scan_ok in H. apply andb_true_iff in H as [H _]. apply andb_true_iff in H as [_ H].
   pose proof (scan_loads_covered_spec l H a n b E) as C.
   apply existsb_exists in C as (x & Hx & Hv). apply existsb_exists. exists x. split; [exact Hx|].
   apply orb_true_iff in Hv as [Hv|Hf]; [exact Hv|exfalso].
   rewrite forallb_forall in NF. assert (In x l) by (subst l; apply in_or_app; right; right; exact Hx).
   specialize (NF x H0). rewrite Hf in NF. discriminate.
+Qed.
+
+(** R6: in an accepted operation, when a node other than the root pointer lock
+    is read-locked, the node most recently loaded from (and neither held nor
+    owned) has been validated since that load *)
+Lemma ptr_validated_app_rlock : forall l ho pending a c ok w b,
+  l = a ++ PRLock c ok w :: b -> ptr_validated ho pending l = true -> beq c root_blk = false ->
+  exists ho' pending', ptr_validated ho' pending' (PRLock c ok w :: b) = true /\
+     (pending' = None \/ pending' = Some c).
+Proof.
+  induction l as [|e l IH]; intros ho pending a c ok w b E H Hc.
+  - destruct a; discriminate.
+  - destruct a as [|x a]; cbn [app] in E; injection E as -> ->.
+    + exists ho, pending. split; [exact H|]. cbn [ptr_validated] in H. rewrite Hc in H.
+      destruct pending as [m|]; [|now left]. destruct (beq m c) eqn:Em; [|discriminate].
+      right. unfold beq in Em. apply Nat.eqb_eq in Em. now subst.
+    + cbn [ptr_validated] in H.
+      destruct x as [n ok0 w0|n [|] v|n [|] v|n|n|n|n|n];
+        try (exact (IH _ _ a c ok w b eq_refl H Hc)).
+      * destruct (beq n root_blk); [exact (IH _ _ a c ok w b eq_refl H Hc)|].
+        destruct pending as [m|]; [destruct (beq m n); [|discriminate]|]; exact (IH _ _ a c ok w b eq_refl H Hc).
+      * destruct (existsb (beq n) (fst ho) || existsb (beq n) (snd ho)); (exact (IH _ _ a c ok w b eq_refl H Hc)).
 Qed.
